@@ -13,6 +13,8 @@ import (
 	"fmt"
 	"os"
 	"strconv"
+
+	otr3 "github.com/coyim/otr3"
 )
 
 type emitter struct {
@@ -48,6 +50,7 @@ func main() {
 
 	var dist map[string]int
 	extra := map[string]interface{}{}
+	pkgBefore := otr3.VerifPkgState()
 	switch profile {
 	case "pure":
 		olog = &oracleLog{checked: map[string]int{}, out: out}
@@ -60,6 +63,16 @@ func main() {
 			fmt.Fprintln(os.Stderr, "unknown profile", profile)
 			os.Exit(2)
 		}
+	}
+	// C20, every profile: no package level value of the library may have changed during the run (whatever one
+	// conversation does to such a value every other conversation of the process sees)
+	if after := otr3.VerifPkgState(); after != pkgBefore {
+		vs, _ := extra["violations"].([]viol)
+		extra["violations"] = append(vs, viol{"C20", "package-level-state-modified",
+			"a package level value of the library changed during the run: before " + pkgBefore + " after " + after, out.n})
+	}
+	if oc, ok := extra["oracle_checked"].(map[string]int); ok {
+		oc["C20"]++
 	}
 	out.ops.Flush()
 	out.impl.Flush()
